@@ -167,61 +167,30 @@ impl ContextHandle {
                 let mut buf = BytesMut::with_capacity(packet.packet_len());
                 packet.encode(&mut buf);
 
-                let (pubrec_sender, pubrec_receiver) = oneshot::channel();
+                let (sender, receiver) = oneshot::channel();
 
-                let pub_msg = ContextMessage::AwaitAck(AwaitAck {
+                let message = ContextMessage::AwaitAck(AwaitAck {
                     action_id: tx_action_id(&TxPacket::Publish(packet)),
-                    packet: buf.split(),
-                    response_channel: pubrec_sender,
-                });
-
-                self.sender.unbounded_send(pub_msg)?;
-
-                let pubrec = pubrec_receiver
-                    .await?
-                    .map(|rx_packet| match rx_packet {
-                        RxPacket::Pubrec(pubrec) => pubrec,
-                        _ => unreachable!("Unexpected packet type."),
-                    })
-                    .and_then(|pubrec| {
-                        if pubrec.reason as u8 >= 0x80 {
-                            Err(PubrecError::from(pubrec).into())
-                        } else {
-                            Ok(pubrec)
-                        }
-                    })?;
-
-                let (pubrel_sender, pubrel_receiver) = oneshot::channel();
-
-                let mut builder = PubrelTxBuilder::default();
-                builder.packet_identifier(pubrec.packet_identifier);
-
-                let pubrel = builder.build().unwrap();
-
-                buf.reserve(pubrel.packet_len());
-                pubrel.encode(&mut buf);
-
-                let pubrel_msg = ContextMessage::AwaitAck(AwaitAck {
-                    action_id: tx_action_id(&TxPacket::Pubrel(pubrel)),
                     packet: buf,
-                    response_channel: pubrel_sender,
+                    response_channel: sender,
                 });
 
-                self.sender.unbounded_send(pubrel_msg)?;
+                self.sender.unbounded_send(message)?;
 
-                pubrel_receiver
-                    .await?
-                    .map(|rx_packet| match rx_packet {
-                        RxPacket::Pubcomp(pubcomp) => pubcomp,
-                        _ => unreachable!("Unexpected packet type."),
-                    })
-                    .and_then(|pubcomp| {
+                // The context answers a successful PUBREC with PUBREL on its own, so that the exchange
+                // completes even when this future is dropped. It reports back either the PUBREC
+                // that refused the message or the final PUBCOMP.
+                receiver.await?.and_then(|rx_packet| match rx_packet {
+                    RxPacket::Pubrec(pubrec) => Err(PubrecError::from(pubrec).into()),
+                    RxPacket::Pubcomp(pubcomp) => {
                         if pubcomp.reason as u8 >= 0x80 {
                             Err(PubcompError::from(pubcomp).into())
                         } else {
                             Ok(())
                         }
-                    })
+                    }
+                    _ => unreachable!("Unexpected packet type."),
+                })
             }
         }
     }
